@@ -110,7 +110,7 @@ namespace Fox.Recovery
 
 /-- how a managed transaction function / single-operation helper ends -/
 inductive TxnEnd where
-  | panics | returnsError | completes (effective : Bool)
+  | panics | returnsError | goexits | completes (effective : Bool)
 deriving DecidableEq, Repr, Inhabited
 
 structure TxnObs where
@@ -133,6 +133,8 @@ def managed (write : Bool) (e : TxnEnd) : TxnObs :=
         lockFree := !write || abortP || (!repanics && abortN) }
     else { out := "repanic:same", routesSame := true, lockFree := !write || abortN }
   | .returnsError => { out := "error", routesSame := true, lockFree := !write || abortN }
+  -- runtime.Goexit inside the callback: the deferred function runs, recover() returns nil, the normal path is taken
+  | .goexits => { out := "goexit", routesSame := true, lockFree := !write || abortN }
   | .completes eff => { out := "returned", routesSame := !(write && eff), lockFree := true }
 
 /-- Router.Handle / Update with an option that panics while the route is built: `defer txn.Abort()` is already armed -/
